@@ -51,7 +51,7 @@ Section Proofs.
   Notation state := (state name).
   Notation blobs := (blobs name).
   Notation blob_lookup := (blob_lookup name name_eqb).
-  Notation read_blob := (read_blob name name_eqb).
+  Notation read_blob := (read_blob name name_eqb H).
   Notation write_blob := (write_blob name name_eqb H).
   Notation gc := (gc name name_eqb).
   Notation refs := (refs name).
@@ -132,7 +132,7 @@ Section Proofs.
     exists pl, d = frame pl /\ read_blob bs n = Some pl /\ n = H (frame pl).
   Proof.
     intros bs n d B L. destruct (B _ _ L) as [pl [-> ->]]. exists pl. repeat split; auto.
-    unfold StoreModel.read_blob. rewrite L. simpl. apply unframe_frame.
+    unfold StoreModel.read_blob. rewrite L. simpl. rewrite name_eqb_refl. apply unframe_frame.
   Qed.
 
   Lemma resolve_agree : forall bs bs' (e : entry),
@@ -173,7 +173,7 @@ Section Proofs.
     - destruct (B _ _ L) as [pl' [-> E]]. apply H_inj in E. rewrite <- E in *.
       repeat split; auto.
       + intros n d; auto.
-      + unfold StoreModel.read_blob. rewrite L. simpl. apply unframe_frame.
+      + unfold StoreModel.read_blob. rewrite L. simpl. rewrite name_eqb_refl. apply unframe_frame.
     - assert (X : blob_lookup (H (frame pl)) ((H (frame pl), frame pl) :: bs) = Some (frame pl))
         by (simpl; rewrite name_eqb_refl; auto).
       repeat split; auto.
@@ -182,7 +182,7 @@ Section Proofs.
         * apply B.
       + intros n d L'. simpl. destruct (name_eqb (H (frame pl)) n) eqn:E; auto.
         apply name_eqb_spec in E. subst. congruence.
-      + unfold StoreModel.read_blob. rewrite X. simpl. apply unframe_frame.
+      + unfold StoreModel.read_blob. rewrite X. simpl. rewrite name_eqb_refl. apply unframe_frame.
   Qed.
 
   Lemma blob_lookup_filter : forall (P : name -> bool) bs n,
@@ -457,7 +457,7 @@ Section Proofs.
     destruct (step_refines o s a H0 H1). apply IH; auto.
   Qed.
 
-  Lemma R_obs : forall s a, Inv s -> R s a -> forall p, obs name_eqb s p = aobs a p.
+  Lemma R_obs : forall s a, Inv s -> R s a -> forall p, obs name_eqb H s p = aobs a p.
   Proof.
     intros [d oh] a I [_ Rh] p. unfold obs, aobs; simpl in *.
     destruct oh as [hd|], (a_h a) as [ah|]; try contradiction; auto.
@@ -466,7 +466,7 @@ Section Proofs.
 
   (* MAIN: the store refines the abstract versioned map for every operation sequence *)
   Theorem store_refines_map : forall ops p,
-    obs name_eqb (run ops init) p = aobs (arun true ops ainit) p.
+    obs name_eqb H (run ops init) p = aobs (arun true ops ainit) p.
   Proof.
     intros. destruct init_ok as [I0 R0]. destruct (run_refines ops _ _ I0 R0). apply R_obs; auto.
   Qed.
@@ -511,7 +511,7 @@ Section Proofs.
     | Some (sc, k', _) => sc <> SCHEMA \/ k' <> k
     | None => True
     end ->
-    obs name_eqb (step (Open k) (run ops init)) p = None.
+    obs name_eqb H (step (Open k) (run ops init)) p = None.
   Proof.
     intros ops k p. destruct (run ops init) as [d oh]. simpl. unfold obs, open_store; simpl.
     destruct (d_man d) as [[[sc k'] f]|]; auto.
@@ -683,7 +683,7 @@ Section Corollaries.
   (* the store refines the always-committing specification *)
   Theorem store_refines_pure_map : forall ops p,
     disciplined false ops = true ->
-    obs name_eqb (run name name_eqb H ops init) p = aobs (arun false ops ainit) p.
+    obs name_eqb H (run name name_eqb H ops init) p = aobs (arun false ops ainit) p.
   Proof.
     intros. rewrite (store_refines_map name name_eqb H name_eqb_spec H_inj).
     apply skip_save_loses_nothing; auto.
@@ -693,7 +693,7 @@ Section Corollaries.
   Theorem reopen_returns_last_saved_build : forall ops ah p,
     disciplined false ops = true ->
     a_h (arun false ops ainit) = Some ah ->
-    obs name_eqb (run name name_eqb H (ops ++ [Save; Drop; Open (ah_key ah)]) init) p =
+    obs name_eqb H (run name name_eqb H (ops ++ [Save; Drop; Open (ah_key ah)]) init) p =
     omap (fun e => (a_hash e, a_deps e, a_tests e, a_frag e, a_diag e)) (lookup p (ah_pend ah)).
   Proof.
     intros ops ah p D Ah. rewrite store_refines_pure_map.
@@ -706,7 +706,7 @@ Section Corollaries.
   Theorem reopen_other_key_empty : forall ops ah k' p,
     disciplined false ops = true ->
     a_h (arun false ops ainit) = Some ah -> k' <> ah_key ah ->
-    obs name_eqb (run name name_eqb H (ops ++ [Save; Drop; Open k']) init) p = None.
+    obs name_eqb H (run name name_eqb H (ops ++ [Save; Drop; Open k']) init) p = None.
   Proof.
     intros ops ah k' p D Ah Ne. rewrite store_refines_pure_map.
     - rewrite arun_app. simpl. rewrite Ah. simpl. unfold aobs, aopen; simpl.
